@@ -19,7 +19,7 @@ fn cps(s: &str) -> J {
 const SPECIAL: &[char] = &['\u{0}', 'A', '\u{7f}', '\u{80}', '\u{a4}', '\u{ff}', '\u{100}', '\u{7ff}', '\u{800}', '\u{ffff}', '\u{10000}', '\u{10ffff}', 'é', 'ÿ', '漢'];
 
 fn gen_string(r: &mut StdRng, target_chars: usize) -> String {
-    let style = r.gen_range(0..7);
+    let style = r.gen_range(0..9);
     (0..target_chars)
         .map(|i| match style {
             0 => r.gen_range(0x20u8..0x7F) as char,
@@ -34,6 +34,14 @@ fn gen_string(r: &mut StdRng, target_chars: usize) -> String {
                 } else {
                     'a'
                 }
+            }
+            6 => {
+                // pure ASCII with NULs
+                if r.gen_range(0..4) == 0 { '\u{0}' } else { r.gen_range(0x20u8..0x7F) as char }
+            }
+            7 => {
+                // Latin-1 characters whose bytes, read as UTF-8, form well-formed two-byte sequences (e.g. "Ã©")
+                if i % 2 == 0 { char::from_u32(r.gen_range(0xC2..0xE0)).unwrap() } else { char::from_u32(r.gen_range(0x80..0xC0)).unwrap() }
             }
             _ => loop {
                 if let Some(c) = char::from_u32(r.gen_range(0..0x11_0000)) {
